@@ -549,6 +549,15 @@ func (wf *Workflow[I, O]) compile(ctx context.Context, options *graphCompileOpti
 				paths = append(paths, splitFieldPath(path))
 			}
 
+			// path and value are both known by now: a static value is checked like a mapping whose source type is the
+			// value's own type (in path order, so that the first error does not depend on map iteration)
+			sort.Slice(paths, func(i, j int) bool { return paths[i].join() < paths[j].join() })
+			for _, path := range paths {
+				if err := checkStaticValue(wf.g.getNodeInputType(n.key), path, value[path.join()]); err != nil {
+					return nil, wf.stick(fmt.Errorf("static value of node[%s]: %w", n.key, err))
+				}
+			}
+
 			if err := n.checkAndAddMappedPath(paths); err != nil {
 				return nil, wf.stick(err)
 			}
@@ -593,6 +602,27 @@ func (wf *Workflow[I, O]) compile(ctx context.Context, options *graphCompileOpti
 	// TODO: check indirect edges are legal
 
 	return wf.g.compile(ctx, options)
+}
+
+// checkStaticValue checks at compile time what can be known about a static value: the path exists in the node's input
+// type and the value can be assigned to what is found there. Below an interface-typed field only the run can tell.
+func checkStaticValue(inputType reflect.Type, path FieldPath, value any) error {
+	if inputType == nil || value == nil {
+		return nil
+	}
+
+	fieldType, intermediateInterface, err := checkAndExtractFieldType(path, inputType)
+	if err != nil {
+		return err
+	}
+	if intermediateInterface {
+		return nil
+	}
+
+	if checkAssignable(reflect.TypeOf(value), fieldType) == assignableTypeMustNot {
+		return fmt.Errorf("value of type[%v] cannot be assigned to field[%s] of type[%v]", reflect.TypeOf(value), path.join(), fieldType)
+	}
+	return nil
 }
 
 func (wf *Workflow[I, O]) initNode(key string) *WorkflowNode {
